@@ -255,6 +255,9 @@ def gen_case(rng, tier):
         d["view"] = rng.choice([None, None, None, 'spin', 'binary']) if d["route"].startswith('ser') or d["route"] in ('deepcopy', 'method_copy') else None
         d["bytes_type"] = rng.choice(['bytes', 'bytes', 'bytearray'])
         d["bias_dtype"] = rng.random() < 0.1
+        # one copy.deepcopy / pickle over a container that holds the model TOGETHER WITH its .spin / .binary views (one shared
+        # memo: the views' copies must not convert the model's copy; round-6 miss C11 r6m1)
+        d["boxed"] = d["route"] in ('deepcopy', 'pickle4', 'pickle5') and rng.random() < 0.5
         if (d["obj_ints"] and d["route"] == 'ser_bytes' and d["quad"] and Fraction(d["off"]).denominator == 1
                 and all(Fraction(x[-1]).denominator == 1 for x in d["lin"] + d["quad"])):
             # all-integer object model as bytes: open finding obj_bqm_bytes_all_int (bias_type int64 is written
@@ -688,6 +691,7 @@ def obs_bqm(m, T):
 def run_bqm(c):
     bqm = build_bqm(c)
     route = c["route"]
+    root = bqm
     if c.get("view"):
         # the other-vartype view of the model (same adjacency, transformed on the fly); what is
         # serialised / copied must be what the view itself shows
@@ -722,6 +726,19 @@ def run_bqm(c):
                 new = json.loads(json.dumps(doc), cls=DimodDecoder)
             else:
                 new = dimod.BinaryQuadraticModel.from_serializable(doc)
+        elif c.get("boxed") and (route == 'deepcopy' or route.startswith('pickle')):
+            feats["boxed"] = True
+            box = {"root": root, "s": root.spin, "it": bqm, "b": root.binary, "again": [root, bqm]}
+            box2 = copy.deepcopy(box) if route == 'deepcopy' else pickle.loads(pickle.dumps(box, protocol=int(route[6:])))
+            new = box2["it"]
+            for k_, orig_ in (("root", root), ("s", root.spin), ("b", root.binary)):
+                got_ = box2[k_]
+                if got_.vartype is not orig_.vartype or not got_.is_equal(orig_) or list(got_.variables) != list(orig_.variables):
+                    return {"py_fail": f"copying a container that holds a model and its views ({route}): entry {k_!r} came back as "
+                                       f"{got_.vartype.name} {dict(got_.linear)} {got_.offset}, was {orig_.vartype.name} {dict(orig_.linear)} {orig_.offset}",
+                            "features": feats}
+            if not box2["again"][0].is_equal(root) or not box2["again"][1].is_equal(bqm) or root.vartype is not gen.VT[c["vartype"]]:
+                return {"py_fail": f"copying a container that holds a model twice ({route}) changed it", "features": feats}
         elif route.startswith('pickle'):
             new = pickle.loads(pickle.dumps(bqm, protocol=int(route[6:])))
         elif route == 'deepcopy':
